@@ -31,10 +31,16 @@ func die(f string, a ...interface{}) {
 }
 
 func main() {
-	if len(os.Args) != 4 {
-		die("usage: mkoverlay <repo> <shim vsync.go> <outdir>")
+	if len(os.Args) != 4 && len(os.Args) != 5 {
+		die("usage: mkoverlay <repo> <shim vsync.go> <outdir> [<source tree to read instead of repo>]")
 	}
 	repo, shim, out := os.Args[1], os.Args[2], os.Args[3]
+	// src: where the sources are read from. Normally the repository itself; for trying out a change without touching
+	// /repo it is another checkout, and every file that differs from the repository's is put into the overlay too.
+	src := repo
+	if len(os.Args) == 5 && os.Args[4] != "" {
+		src = os.Args[4]
+	}
 	if err := os.RemoveAll(filepath.Join(out, "src")); err != nil {
 		die("%v", err)
 	}
@@ -43,7 +49,7 @@ func main() {
 	replace[filepath.Join(repo, "pkg/zzverif/zzx/zzx.go")] = filepath.Join(filepath.Dir(filepath.Dir(shim)), "zzx", "zzx.go")
 
 	instrumented := []string{}
-	err := filepath.Walk(filepath.Join(repo, "pkg"), func(p string, info os.FileInfo, err error) error {
+	walk := func(p string, info os.FileInfo, err error) error {
 		if err != nil {
 			return err
 		}
@@ -53,18 +59,32 @@ func main() {
 		if strings.Contains(p, "/zzverif/") {
 			return nil
 		}
-		src, err := os.ReadFile(p)
+		content, err := os.ReadFile(p)
 		if err != nil {
 			return err
 		}
-		res, changed, err := rewrite(p, src)
-		if err != nil {
-			die("%s: %v", p, err)
+		rel, _ := filepath.Rel(src, p)
+		instrument := strings.HasPrefix(rel, "pkg/")
+		res, changed := content, false
+		if instrument {
+			res, changed, err = rewrite(p, content)
+			if err != nil {
+				die("%s: %v", p, err)
+			}
+			if !changed {
+				res = content
+			}
+		}
+		if src != repo {
+			orig, oerr := os.ReadFile(filepath.Join(repo, rel))
+			if oerr != nil || string(orig) != string(content) {
+				changed = true
+			}
 		}
 		if !changed {
 			return nil
 		}
-		rel, _ := filepath.Rel(repo, p)
+		p = filepath.Join(repo, rel)
 		dst := filepath.Join(out, "src", rel)
 		if err := os.MkdirAll(filepath.Dir(dst), 0o755); err != nil {
 			return err
@@ -75,9 +95,18 @@ func main() {
 		replace[p] = dst
 		instrumented = append(instrumented, rel)
 		return nil
-	})
-	if err != nil {
+	}
+	if err := filepath.Walk(filepath.Join(src, "pkg"), walk); err != nil {
 		die("%v", err)
+	}
+	if src != repo {
+		for _, d := range []string{"internal", "cmd", "examples"} {
+			if _, err := os.Stat(filepath.Join(src, d)); err == nil {
+				if err := filepath.Walk(filepath.Join(src, d), walk); err != nil {
+					die("%v", err)
+				}
+			}
+		}
 	}
 	b, _ := json.MarshalIndent(map[string]interface{}{"Replace": replace}, "", " ")
 	if err := os.WriteFile(filepath.Join(out, "overlay.json"), b, 0o644); err != nil {
